@@ -120,6 +120,7 @@ fn shape_dims(s: &Shape) -> String {
 
 fn main() {
     let ctx = Ctx::from_args("C04");
+    ndv_checks::warm_up_f32();
     let ncases = ctx.n(3000, 600000);
     let acc = ctx.parallel(|shard, nshards| {
         let mut acc = Acc::new();
